@@ -428,7 +428,8 @@ fn initial(rep: &Reporter) {
                 // every axis with its own bounds (same lower bound and different upper bounds, nested and disjoint
                 // intervals): each coordinate inside the bounds of ITS axis
                 if dim >= 2 {
-                    let families: [&[(f64, f64)]; 4] = [
+                    let families: [&[(f64, f64)]; 5] = [
+                        &[(-5.0, 5.0), (-5.0, 5.0), (0.0, 6.25), (100.0, 200.0), (100.0, 200.0), (0.0, 1.0)],
                         &[(0.0, 100.0), (0.0, 1.0), (0.0, 0.25), (0.0, 7.0), (0.0, 1e-6), (0.0, 3.0)],
                         &[(-1.0, 1.0), (-0.5, 0.5), (5.0, 6.0), (-1e3, -999.0), (0.0, 1e9), (2.0, 2.5)],
                         &[(1.0, 2.0), (1.0, 1.5), (1.0, 1.25), (1.0, 1.125), (1.0, 9.0), (1.0, 1.0625)],
